@@ -56,7 +56,7 @@ struct Outcome { ops: Vec<(String, String, String)>, class: String, oracle: Vec<
 #[derive(Clone, Copy, PartialEq, Debug)]
 enum K { S, O, I, U }
 
-struct Item { kind: K, sat: u64, vout: u32, cltv: u32 }
+struct Item { kind: K, sat: u64, vout: u32, cltv: u32, hash: [u8; 32], hid: usize }
 
 fn commitment_for(net: &Net, observer: usize, chan_id: ChannelId, txid: Txid) -> Option<CommitmentTransaction> {
 	// the commitment transaction `txid` as the OTHER party's monitor knows it (counterparty commitments are public there)
@@ -66,6 +66,26 @@ fn commitment_for(net: &Net, observer: usize, chan_id: ChannelId, txid: Txid) ->
 		for ct in mon.counterparty_commitment_txs_from_update(u) { if ct.trust().txid() == txid { return Some(ct); } }
 	}
 	mon.initial_counterparty_commitment_tx().filter(|ct| ct.trust().txid() == txid)
+}
+
+/// one payment of `parts.len()` parts, ALL over channel `c`: the commitments then carry several HTLC outputs with the SAME payment hash
+fn send_mpp_one_channel(net: &mut Net, src: usize, dst: usize, c: usize, parts: &[u64], final_cltv_delta: u32) -> Result<usize, String> {
+	use lightning::routing::router::{Path, PaymentParameters, Route, RouteHop, RouteParameters};
+	use lightning::types::features::{ChannelFeatures, NodeFeatures};
+	let total: u64 = parts.iter().sum();
+	let (preimage, hash, secret) = get_payment_preimage_hash(&net.nodes[dst], Some(total), None);
+	let scid = net.chans[c].3;
+	let paths: Vec<Path> = parts.iter().map(|amt| Path { hops: vec![RouteHop { pubkey: net.ids[dst], node_features: NodeFeatures::empty(), short_channel_id: scid,
+		channel_features: ChannelFeatures::empty(), fee_msat: *amt, cltv_expiry_delta: final_cltv_delta, maybe_announced_channel: true }], blinded_tail: None }).collect();
+	let params = PaymentParameters::from_node_id(net.ids[dst], final_cltv_delta);
+	let route = Route { paths, route_params: RouteParameters::from_payment_params_and_value(params, total) };
+	let id = lightning::ln::channelmanager::PaymentId(hash.0);
+	let r = net.nodes[src].node.send_payment_with_route(route, hash, lightning::ln::outbound_payment::RecipientOnionFields::secret_only(secret, total), id);
+	net.pump(src);
+	match r {
+		Ok(()) => { net.pays.push(ldk_verif_harness::sim::PendingPay { hash, preimage, secret, amt: total, id, from: src, to: dst }); Ok(net.pays.len() - 1) },
+		Err(e) => Err(format!("{:?}", e).chars().take(80).collect()),
+	}
 }
 
 /// PER-NODE configuration of a scenario: nothing is left at the library defaults that a node operator can set differently
@@ -114,15 +134,30 @@ fn close_scenario(seed: u64, thorough: bool) -> Result<Outcome, String> {
 	}
 	let n_htlc = rng.below(if thorough { 9 } else { 6 });
 	let mut pays: Vec<usize> = vec![];
+	let mut n_mpp = 0u32;
 	for _ in 0..n_htlc {
 		let (x, y) = if rng.chance(1, 2) { (0, 1) } else { (1, 0) };
 		let amt = match rng.below(4) { 0 => rng.range(1_000, 500_000), 1 => rng.range(500_000, 600_000), _ => rng.range(1_000_000, 30_000_000) };
-		if let Ok(p) = net.send(&[x, y], &[c], amt, 42 + rng.below(40) as u32) { pays.push(p); }
+		// (long expiries leave room for a preimage learned k blocks AFTER the close: the receiving ChannelManager gives a payment up
+		// HTLC_FAIL_BACK_BUFFER = 39 blocks before its expiry)
+		let delta = 42 + if rng.chance(1, 2) { rng.below(40) } else { rng.below(150) } as u32;
+		if rng.chance(1, 3) {
+			// a multi-part payment with ALL parts over this channel: 2-3 HTLC outputs with the same payment hash
+			let n_parts = rng.range(2, 3) as usize;
+			let parts: Vec<u64> = (0..n_parts).map(|_| match rng.below(3) { 0 => rng.range(600_000, 1_500_000), _ => rng.range(1_500_000, 12_000_000) }).collect();
+			if let Ok(p) = send_mpp_one_channel(&mut net, x, y, c, &parts, delta) { pays.push(p); n_mpp += 1; }
+		} else if let Ok(p) = net.send(&[x, y], &[c], amt, delta) { pays.push(p); }
 		net.settle(40);
 	}
-	// receivers learn some preimages but their fulfil messages are NOT delivered: the HTLCs stay in the commitments
+	// receivers learn some preimages BEFORE the close (their fulfil messages are NOT delivered: the HTLCs stay in the commitments), some at a
+	// chosen number of blocks AFTER the closing commitment confirmed (0 = right after it, .. up to past the point where the manager gave up), some never
 	let mut known: BTreeSet<[u8; 32]> = BTreeSet::new();
-	for &p in &pays { if rng.chance(1, 2) { known.insert(net.pays[p].hash.0); net.claim(p); let to = net.pays[p].to; net.process_events(to); } }
+	let mut late: Vec<(usize, u32)> = vec![];      // (payment, blocks after the close)
+	for &p in &pays { match rng.below(5) {
+		0 | 1 => { known.insert(net.pays[p].hash.0); net.claim(p); let to = net.pays[p].to; net.process_events(to); },
+		2 | 3 => late.push((p, match rng.below(6) { 0 => 0, 1 => 1, 2 => rng.range(2, 6) as u32, 3 => rng.range(6, 14) as u32, _ => rng.range(0, 60) as u32 })),
+		_ => {},
+	} }
 	// ---- closure ----------------------------------------------------------------------------------------
 	let closer = if holder_close { a } else { b };
 	let peer_of = |i: usize| if i == a { b } else { a };
@@ -146,19 +181,21 @@ fn close_scenario(seed: u64, thorough: bool) -> Result<Outcome, String> {
 	let mut items: Vec<Item> = vec![];
 	// A's balance output
 	if holder_close {
-		if let Some(i) = trusted.revokeable_output_index() { items.push(Item { kind: K::S, sat: commitment_tx.output[i].value.to_sat(), vout: i as u32, cltv: 0 }); }
+		if let Some(i) = trusted.revokeable_output_index() { items.push(Item { kind: K::S, sat: commitment_tx.output[i].value.to_sat(), vout: i as u32, cltv: 0, hash: [0; 32], hid: 0 }); }
 	} else {
 		let htlc_idx: BTreeSet<u32> = ct.nondust_htlcs().iter().filter_map(|h| h.transaction_output_index).collect();
 		for (i, _o) in commitment_tx.output.iter().enumerate() {
 			if anchors && _o.value.to_sat() == 330 { continue; }   // the two anchor outputs
-			if Some(i) != trusted.revokeable_output_index() && !htlc_idx.contains(&(i as u32)) { items.push(Item { kind: K::S, sat: commitment_tx.output[i].value.to_sat(), vout: i as u32, cltv: 0 }); }
+			if Some(i) != trusted.revokeable_output_index() && !htlc_idx.contains(&(i as u32)) { items.push(Item { kind: K::S, sat: commitment_tx.output[i].value.to_sat(), vout: i as u32, cltv: 0, hash: [0; 32], hid: 0 }); }
 		}
 	}
+	let mut hids: Vec<[u8; 32]> = vec![];
 	for h in ct.nondust_htlcs() {
 		let vout = h.transaction_output_index.ok_or("non-dust HTLC without index")?;
 		let outbound_from_a = h.offered == holder_close;      // offered by the broadcaster
 		let kind = if outbound_from_a { K::O } else if known.contains(&h.payment_hash.0) { K::I } else { K::U };
-		items.push(Item { kind, sat: h.amount_msat / 1000, vout, cltv: h.cltv_expiry });
+		let hid = match hids.iter().position(|x| *x == h.payment_hash.0) { Some(k) => k + 1, None => { hids.push(h.payment_hash.0); hids.len() } };
+		items.push(Item { kind, sat: h.amount_msat / 1000, vout, cltv: h.cltv_expiry, hash: h.payment_hash.0, hid });
 	}
 	// (B may know preimages of A's outbound HTLCs: then B takes them on chain — a `peer` claim)
 	let mut conf_height: HashMap<Txid, u32> = HashMap::new();
@@ -176,6 +213,7 @@ fn close_scenario(seed: u64, thorough: bool) -> Result<Outcome, String> {
 		if let Err(e) = commitment_tx.verify(|op| prevouts.get(op).cloned()) { out.oracle.push(format!("closing commitment {} fails consensus verification: {:?}", ctxid, e)); }
 	}
 	let desc = format!("{} close on a{} channel, A's our_to_self_delay {} / B's {}", if holder_close { "holder" } else { "counterparty" }, if anchors { "n anchor" } else { " legacy" }, d_a, d_b);
+	if std::env::var("C07_CLOSE_SEED").is_ok() { eprintln!("SCENARIO {}; items {:?}; late {:?}", desc, items.iter().map(|it| format!("{:?}:{}:cltv{}:h{}", it.kind, it.sat, it.cltv, it.hid)).collect::<Vec<_>>(), late.iter().map(|(p, k)| format!("pay{}->node{} +{}", p, net.pays[*p].to, k)).collect::<Vec<_>>()); }
 	// ---- chain loop ---------------------------------------------------------------------------------------------
 	let mine_both = |net: &Net, txs: &[Transaction]| {
 		for i in 0..2 { let refs: Vec<&Transaction> = txs.iter().collect(); if refs.is_empty() { connect_blocks(&net.nodes[i], 1); } else { mine_transactions(&net.nodes[i], &refs); } }
@@ -184,7 +222,8 @@ fn close_scenario(seed: u64, thorough: bool) -> Result<Outcome, String> {
 	let balances_of_a = |net: &Net| -> Vec<Balance> { net.nodes[a].chain_monitor.chain_monitor.get_monitor(chan_id).map(|m| m.get_claimable_balances()).unwrap_or_default() };
 	// pre-confirmation sanity (oracle only): the pre-close view reports a ClaimableOnChannelClose
 	if !balances_of_a(&net).iter().any(|b| matches!(b, Balance::ClaimableOnChannelClose { .. })) { out.oracle.push("no ClaimableOnChannelClose before the closing transaction confirmed".into()); }
-	for i in 0..2 { net.nodes[i].tx_broadcaster.txn_broadcasted.lock().unwrap().clear(); }
+	// (what the closer broadcast together with its commitment — a legacy holder's HTLC-success transactions — stays in the queue: it is
+	// collected, verified and offered to the miner in round 0)
 	mine_both(&net, &[commitment_tx.clone()]);
 	drain(&net);
 	let close_h = net.nodes[a].best_block_info().1;
@@ -258,8 +297,8 @@ fn close_scenario(seed: u64, thorough: bool) -> Result<Outcome, String> {
 		}
 	}}; }
 	process_events!(a); process_events!(b);
-	let item_tok = |it: &Item| format!("{}:{}:{}:{}", match it.kind { K::S => "S", K::O => "O", K::I => "I", K::U => "U" }, it.sat,
-		if it.kind == K::O { it.cltv } else { 0 }, if it.kind == K::I || it.kind == K::U { it.cltv } else { 0 });
+	let item_tok = |it: &Item| format!("{}:{}:{}:{}:{}", match it.kind { K::S => "S", K::O => "O", K::I => "I", K::U => "U" }, it.sat,
+		if it.kind == K::O { it.cltv } else { 0 }, if it.kind == K::I || it.kind == K::U { it.cltv } else { 0 }, it.hid);
 	let shown0 = format!("{} | {}", show_balances(&balances_of_a(&net)), spendable);
 	out.ops.push((format!("close {} {} {} {} {}", close_h, holder_close as u8, d_a, d_b, items.iter().map(item_tok).collect::<Vec<_>>().join(" ")).trim_end().to_string(), shown0, "close".into()));
 	let _ = seed;
@@ -267,6 +306,9 @@ fn close_scenario(seed: u64, thorough: bool) -> Result<Outcome, String> {
 	let mut a_history: Vec<Transaction> = vec![];
 	let mut last_fee: BTreeMap<Vec<OutPoint>, u64> = BTreeMap::new();
 	let mut item_state: Vec<u8> = items.iter().map(|_| 0).collect();   // 0 open, 1 claimed by A, 2 taken by B
+	let mut known_since: Vec<u32> = items.iter().map(|_| close_h).collect();
+	let mut unclaimed_reported: Vec<bool> = items.iter().map(|_| false).collect();
+	let (mut n_late, mut n_late_refused) = (0u32, 0u32);
 	let mut idle = 0;
 	let lazy = rng.chance(1, 3);        // slow miners: claims sit unconfirmed long enough for the bump timers to fire
 	let mut n_rebroadcast = 0u32;
@@ -278,6 +320,27 @@ fn close_scenario(seed: u64, thorough: bool) -> Result<Outcome, String> {
 		// the fee estimator follows a scripted trajectory (falling / rising / oscillating / random walk / spike-then-crash / constant)
 		if rng.chance(1, 4) { let v = fee_traj.next(&mut rng).min(60_000); *net.nodes[a].fee_estimator.sat_per_kw.lock().unwrap() = v; }
 		let h = net.nodes[a].best_block_info().1;
+		// ---- a preimage learned only now, `k` blocks after the closing commitment confirmed ----------------------------------------
+		let due_now: Vec<usize> = late.iter().filter(|(_, k)| close_h + *k == h).map(|(p, _)| *p).collect();
+		for p in due_now {
+			let to = net.pays[p].to; let hash = net.pays[p].hash;
+			// (an output the counterparty already took back is not "learned": the ledger only upgrades unspent outputs)
+			if items.iter().enumerate().any(|(ix, it)| it.hash == hash.0 && item_state[ix] != 0) { continue; }
+			net.events[to].clear();
+			net.claim(p); net.process_events(to);
+			let claimed = net.events[to].iter().any(|e| matches!(e, Event::PaymentClaimed { payment_hash, .. } if *payment_hash == hash));
+			drain(&net);
+			if !claimed { n_late_refused += 1; continue; }       // the ChannelManager had already given the payment up (expiry - 39)
+			if to == a {
+				let mut hid = None;
+				for (ix, it) in items.iter_mut().enumerate() { if it.hash == hash.0 && it.kind == K::U { it.kind = K::I; hid = Some(it.hid); known_since[ix] = h; } }
+				process_events!(a);
+				if let Some(hid) = hid {
+					n_late += 1;
+					out.ops.push((format!("preimage {} {:x}", hid, seed & 0xffffff), format!("{} | {}", show_balances(&balances_of_a(&net)), spendable), format!("preimage:+{}{}", (h - close_h).min(9), if items.iter().filter(|it| it.hid == hid).count() > 1 { ":multi-part" } else { "" })));
+				}
+			}
+		}
 		// collect broadcasts; A's are checked for validity and finality at THIS height
 		for i in 0..2 {
 			let v: Vec<Transaction> = net.nodes[i].tx_broadcaster.txn_broadcasted.lock().unwrap().drain(..).collect();
@@ -299,6 +362,17 @@ fn close_scenario(seed: u64, thorough: bool) -> Result<Outcome, String> {
 				let id = t.compute_txid();
 				for (k, o) in t.output.iter().enumerate() { prevouts.entry(OutPoint { txid: id, vout: k as u32 }).or_insert_with(|| o.clone()); }
 				pool.push((t, i));
+			}
+		}
+		// every unspent inbound HTLC whose preimage A knows must have a claim of A's in flight BEFORE its expiry lets the counterparty take it
+		for (ix, it) in items.iter().enumerate() {
+			if it.kind == K::I && item_state[ix] == 0 && h < it.cltv && !unclaimed_reported[ix] {
+				let op = OutPoint { txid: ctxid, vout: it.vout };
+				if !a_history.iter().any(|t| t.input.iter().any(|i| i.previous_output == op)) {
+					unclaimed_reported[ix] = true;
+					out.oracle.push(format!("inbound HTLC {} ({} sat, output {}:{}, expiry {}{}) with known preimage (since height {}) unclaimed at height {}: A has no claim transaction for it ({})", ix, it.sat, &ctxid.to_string()[..8], it.vout, it.cltv,
+						if items.iter().filter(|o| o.hid == it.hid).count() > 1 { ", one of several outputs with the same payment hash" } else { "" }, known_since[ix], h, desc));
+				}
 			}
 		}
 		// choose what the next block contains: minable, non-conflicting, latest first, each with probability 2/3
@@ -369,7 +443,8 @@ fn close_scenario(seed: u64, thorough: bool) -> Result<Outcome, String> {
 	let cnt = |k: K| items.iter().filter(|it| it.kind == k).count().min(3);
 	if n_rebroadcast > 0 { out.ops.push(("totals".into(), format!("0 {} {} {} {}", spendable, fees, lost, entitlement), "rebroadcast-seen".into())); }
 	out.class = format!("close:{}{}:O{}:I{}:U{}:S{}", if holder_close { "holder" } else { "counterparty" }, if anchors { "-anchors" } else { "" }, cnt(K::O), cnt(K::I), cnt(K::U), cnt(K::S));
-	out.est_kind = format!("{};delays:{};spent:{}", out.est_kind, if d_a > d_b { "A>B" } else { "A<B" }, n_spent_descriptors.min(9));
+	let dup_in = { let mut m: BTreeMap<usize, usize> = BTreeMap::new(); for it in &items { if it.hid != 0 && (it.kind == K::I || it.kind == K::U) { *m.entry(it.hid).or_insert(0) += 1; } } m.values().cloned().max().unwrap_or(0) };
+	out.est_kind = format!("{};delays:{};spent:{};mpp-sent:{};same-hash-inbound-outputs:{};late-preimages:{};late-refused:{}", out.est_kind, if d_a > d_b { "A>B" } else { "A<B" }, n_spent_descriptors.min(9), n_mpp.min(3), dup_in, n_late.min(4), n_late_refused.min(3));
 	let _ = (item_state, a_history);
 	drain(&net);
 	Ok(out)
@@ -855,6 +930,7 @@ fn main() {
 			silence_stdout();
 			if let Ok(sd) = std::env::var("C07_CLOSE_SEED") {
 				// replay of ONE scenario: C07_CLOSE_SEED=<seed printed in the oracle message> target/debug/c07 c07close --out <dir>
+				std::panic::set_hook(Box::new(|i| eprintln!("PANIC {}\n{}", i, std::backtrace::Backtrace::force_capture())));
 				match close_scenario(sd.parse().expect("C07_CLOSE_SEED"), args.thorough) {
 					Ok(o) => { for (op, res, cl) in &o.ops { if cl != "block:quiet" { eprintln!("{}  ->  {}   [{}]", op, res, cl); } if res == "-" && cl == "claim" { rec.directive(op); } else { rec.case(op, res, cl, true); } } for f in o.oracle { eprintln!("ORACLE {}", f); rec.oracle_fail(f); } },
 					Err(e) => eprintln!("discarded: {}", e),
@@ -863,6 +939,7 @@ fn main() {
 				return;
 			}
 			let n = if args.thorough { 3000 } else { 400 } * args.scale;
+			let mut kf_c11_2 = 0u32;
 			for k in 0..n {
 				let s = rng.next();
 				match guarded(AssertUnwindSafe(|| close_scenario(s, args.thorough))) {
@@ -873,10 +950,15 @@ fn main() {
 						for f in o.oracle { rec.oracle_fail(format!("scenario {} (seed {}): {}", k, s, f)); }
 					},
 					Ok(Err(e)) => { rec.discarded += 1; *rec.classes.entry(format!("discarded:{}", e.chars().take(40).collect::<String>())).or_insert(0) += 1; },
-					Err(p) => rec.oracle_fail(format!("scenario {} (seed {}) panicked: {}", k, s, p.replace('\n', " ").chars().take(300).collect::<String>())),
+					Err(p) => if p.contains("self.pending_claim_requests.get(&claim_id).is_none()") {
+							// the C11 finding, reached here WITHOUT a reorg (see DESIGN 9.3): tagged so that known_findings.txt can refer to it; any other panic is not
+							kf_c11_2 += 1;
+							if kf_c11_2 <= 3 { rec.oracle_fail(format!("KF-C11-2 duplicate timelocked claim package: a preimage learned after an ANCHOR holder commitment confirmed re-requests the holder's HTLC-timeout claims, which sit AGGREGATED in locktimed_packages and are not recognised as equivalent to the single-outpoint requests; at the timelock both are released with the same ClaimId: debug_assert pending_claim_requests.get(&claim_id).is_none() fails (scenario {}, C07_CLOSE_SEED={})", k, s)); }
+						} else { rec.oracle_fail(format!("scenario {} (seed {}) panicked: {}", k, s, p.replace('\n', " ").chars().take(300).collect::<String>())) },
 				}
 			}
-			rec.notes.insert("rule".into(), "one scenario = one real 2-node channel closed by A's or by the counterparty's latest commitment with a PRNG-drawn pending-HTLC mix; every block is one compared op (A's real get_claimable_balances vs the ledger); distinct non-trivial = close / totals lines and blocks that contain transactions".into());
+			rec.notes.insert("kf-c11-2".into(), format!("{} scenarios ended in the duplicate-timelocked-package debug_assert (first 3 reported)", kf_c11_2));
+			rec.notes.insert("rule".into(), "one scenario = one real 2-node channel closed by A's or by the counterparty's latest commitment (legacy or anchors, per-node to_self_delay / reserve) with a PRNG-drawn pending-HTLC mix incl. multi-part payments over the one channel (several outputs with one payment hash), preimages known before the close / learned k blocks after it / never; every block is one compared op (A's real get_claimable_balances vs the ledger); distinct non-trivial = close / totals lines and blocks that contain transactions".into());
 		},
 		m => { eprintln!("unknown model {}", m); std::process::exit(2); },
 	}
